@@ -26,8 +26,9 @@ class Injected(OSError):
 class Plan:
     """count the collector's storage calls; fail call number `at` (0-based) or every call matching `match`"""
 
-    def __init__(self, at=None, match=None):
+    def __init__(self, at=None, match=None, exc=None):
         self.at, self.match, self.n, self.log = at, match, 0, []
+        self.exc = exc or Injected
 
     def wrap(self, storage):
         self.saved = {}
@@ -42,7 +43,7 @@ class Plan:
                 self.n += 1
                 self.log.append((_m, a[0] if a else ""))
                 if self.at == idx or (self.match and self.match(_m, a[0] if a else "")):
-                    raise Injected(f"injected fault at call {idx}: {_m}({a[0] if a else ''})")
+                    raise self.exc(f"injected fault at call {idx}: {_m}({a[0] if a else ''})")
                 return _o(*a, **k)
             setattr(storage, m, w)
 
@@ -146,14 +147,17 @@ def _single_faults(ctx, rep, base):
     _run_gc(t, probe)
     n_calls = probe.n
     rep.extra["collector_storage_calls"] = n_calls
-    for k in range(n_calls):
+    for k, exc in [(k_, e_) for e_ in (None, FileNotFoundError, PermissionError) for k_ in range(n_calls)]:
+        op, arg = probe.log[k] if k < len(probe.log) else ("?", "")
+        if exc is not None and not (op in ("read_file", "open_file", "get_modified_time") and (
+                "inflight" in arg or ctx.thorough or ctx.intensify)):
+            continue        # other error classes: the calls whose failure could be mistaken for "the thing is gone"
         shutil.rmtree(path)
         shutil.copytree(snap, path, copy_function=shutil.copy2)
         before = _files(path)
-        plan = Plan(at=k)
+        plan = Plan(at=k, exc=exc)
         outcome = _run_gc(t, plan)
-        op, arg = probe.log[k] if k < len(probe.log) else ("?", "")
-        what = f"fault at call {k}: {op}({arg})"
+        what = f"fault ({(exc or Injected).__name__}) at call {k}: {op}({arg})"
         hint = None
         if op == "list_files" and arg == "metadata/inflight":
             hint = "C07:inflight-list-failed"
@@ -161,7 +165,7 @@ def _single_faults(ctx, rep, base):
             hint = "C07:marker-payload-unreadable-target-not-under-data"
         elif op == "list_files":
             hint = "C07:raise-after-delete"
-        _judge(rep, what, {"kind": "single-fault", "call": k, "op": op, "arg": arg}, before, _files(path), outcome, reach, protected, hint)
+        _judge(rep, what, {"kind": "single-fault", "call": k, "op": op, "arg": arg, "error": (exc or Injected).__name__}, before, _files(path), outcome, reach, protected, hint)
     shutil.rmtree(snap)
     shutil.rmtree(path, ignore_errors=True)
     try:
@@ -181,8 +185,11 @@ def _corruptions(ctx, rep, base):
     snap = os.path.join(base, "co.snap")
     shutil.copytree(path, snap, copy_function=shutil.copy2)
     for target in targets:
-        for cls in ("missing", "truncated", "truncated-24", "truncated-60", "truncated-1", "garbage", "empty", "transient", "entry-bitrot"):
+        for cls in ("missing", "truncated", "truncated-24", "truncated-60", "truncated-1", "garbage", "empty", "transient", "entry-bitrot",
+                    "json-empty-object", "json-empty-list", "json-null", "no-snapshots-key", "snapshots-null", "no-current-snapshot-id-key"):
             if (cls.startswith("truncated-") or cls == "entry-bitrot") and not target.endswith(".avro"):
+                continue
+            if cls in ("no-snapshots-key", "snapshots-null", "no-current-snapshot-id-key") and not target.endswith(".json"):
                 continue
             if cls == "entry-bitrot" and "manifest_list_" in target:
                 continue
@@ -211,6 +218,19 @@ def _corruptions(ctx, rep, base):
                 recs_[-1] = dict(recs_[-1], data_file=dict(recs_[-1]["data_file"], file_format="parquat"))
                 with open(full, "wb") as f_:
                     fastavro.writer(f_, ws_, recs_)
+            elif cls in ("json-empty-object", "json-empty-list", "json-null"):
+                # bytes that are VALID JSON and not a file of this kind (a metadata file is an object with its required fields; manifests are Avro)
+                open(full, "wb").write({"json-empty-object": b"{}", "json-empty-list": b"[]", "json-null": b"null"}[cls])
+            elif cls in ("no-snapshots-key", "snapshots-null", "no-current-snapshot-id-key"):
+                import json as _json
+                d_ = _json.load(open(full))
+                if cls == "no-snapshots-key":
+                    d_.pop("snapshots", None)
+                elif cls == "snapshots-null":
+                    d_["snapshots"] = None
+                else:
+                    d_.pop("current_snapshot_id", None)
+                open(full, "w").write(_json.dumps(d_))
             elif cls == "garbage":
                 open(full, "wb").write(b"\x00\xffnot a file of this kind{{{")
             elif cls == "empty":
@@ -289,12 +309,14 @@ def _marker_faults(ctx, rep, base):
         "marker stat fails": (lambda: Plan(match=lambda m, p: m == "get_modified_time" and "inflight" in p), None),
         "marker payload read fails": (lambda: Plan(match=lambda m, p: m == "read_file" and "inflight" in p), "C07:marker-payload-unreadable-target-not-under-data"),
     }
-    for name, (mk, hint) in plans.items():
+    for (name, (mk, hint)), exc in [(i_, e_) for i_ in plans.items() for e_ in (None, FileNotFoundError, PermissionError, TimeoutError)]:
         shutil.rmtree(path)
         shutil.copytree(snap, path, copy_function=shutil.copy2)
         before = _files(path)
-        outcome = _run_gc(t, mk())
-        _judge(rep, name, {"kind": "marker-fault", "fault": name}, before, _files(path), outcome, reach, protected, hint)
+        plan = mk()
+        plan.exc = exc or Injected
+        outcome = _run_gc(t, plan)
+        _judge(rep, f"{name} ({plan.exc.__name__})", {"kind": "marker-fault", "fault": name, "error": plan.exc.__name__}, before, _files(path), outcome, reach, protected, hint)
     # unparseable / field-less payloads
     for name, payload in (("marker payload garbage", b"\xff{{"), ("marker payload without file_path", b"{}"), ("marker payload empty", b"")):
         shutil.rmtree(path)
